@@ -237,13 +237,31 @@ func expand(name string, r *reqRec) frag {
 	case "size":
 		return frag{re: `-?\d+`, class: "size", kind: fSize}
 	case "request":
-		return frag{re: `.*`, class: "request-dump", check: r.checkDump, hostile: r.anyHostileHdr()}
+		// tight pattern (request line, then exactly the header lines that
+		// were sent, in any order) so that a neighbouring placeholder
+		// cannot be absorbed; the predicate then checks the multiset
+		const crlf = `\r\n` // CR LF "sanitized to display on a single line"
+		hs := r.dumpHeaderLines()
+		q := make([]string, len(hs))
+		for i, h := range hs {
+			q[i] = regexp.QuoteMeta(h)
+		}
+		re := `(?:` + regexp.QuoteMeta(r.Method+" "+r.Target+" HTTP/1.1") + `|` + regexp.QuoteMeta(r.Method+" "+r.NormURI+" HTTP/1.1") + `)` +
+			regexp.QuoteMeta(crlf) + `(?:(?:` + strings.Join(q, "|") + `)` + regexp.QuoteMeta(crlf) + `){` + strconv.Itoa(len(hs)) + `}` + regexp.QuoteMeta(crlf)
+		return frag{re: re, class: "request-dump", check: r.checkDump, hostile: r.anyHostileHdr()}
 	case "request_body":
 		if (r.Method == "POST" || r.Method == "PUT") && (strings.Contains(r.ContentType, "application/json") || strings.Contains(r.ContentType, "application/xml")) {
+			// the body on one line; a server that had to answer before the
+			// handler read the body may have seen only a prefix of it
 			full := lineEsc.Replace(string(r.Body))
-			return frag{re: `.*`, class: "request-body", check: func(s string) bool {
-				return s == emptyMark || strings.HasPrefix(full, s)
-			}}
+			xs := []string{full}
+			for i := len(r.Body) - 1; i >= 0; i-- {
+				xs = append(xs, lineEsc.Replace(string(r.Body[:i])))
+			}
+			xs = append(xs, emptyMark)
+			f := alts("request-body", xs...)
+			f.check = func(s string) bool { return true }
+			return f
 		}
 		return alts("request-body", emptyMark)
 	case "tls_protocol", "tls_cipher", "tls_client_escaped_cert", "tls_client_fingerprint", "tls_client_i_dn",
